@@ -47,7 +47,7 @@ def strategy_(draw, tier):
             'shared_block': draw(st.booleans()), 'modify_via': draw(st.sampled_from(['a', 'b'])),
             'ref_via': draw(st.sampled_from(['a', 'b'])), 'also_edit_moved': draw(st.booleans()),
             'extra_delete': draw(st.booleans())}
-  case = draw(c10.strategy('quick'))
+  case = draw(c10.strategy('quick', extra_kinds=False))
   case['kind'] = 'pair'
   return case
 
